@@ -1,6 +1,6 @@
 """C16 — the receiver recovers after any history (absence of poison state; composition)."""
 from framework import *
-from rules import c08, c15, c17
+from rules import c05, c08, c15, c17
 
 DECAPS = 'gse_decap::Decapsulator'
 LT = 'label::LabelType'
@@ -47,7 +47,7 @@ def run(ck):
             ck.finding('C16.R1', r.site[0], f"writes-field:{fields[loc.path[0][1]]}", f"{short(r.site[0])} writes Decapsulator.{fields[loc.path[0][1]]}", r.site)
     # ---- R4: prerequisites, decided on this run: no panic (no half-updated state), no leak (one buffer suffices)
     n = ck.count_obligations(a.obligations(), 'C16.R4')
-    ck.rule('C16.R4 panic obligations of decap (prerequisite: no history can crash the receiver)', n, 60)
+    ck.panic_rule('C16.R4 panic obligations of decap (prerequisite: no history can crash the receiver)', n, [a], c05.FLOOR_R1)
     c08.drop_findings(ck, a, 'C16.R4')
     ck.rule('C16.R4 Drop terminators executed abstractly in decap (prerequisite: no history can exhaust the storage)', a.I.stats.get('drops_executed', 0), 20)
     # ---- R3: reset
